@@ -547,7 +547,7 @@ pub fn run(ctx: &Ctx, replay: Option<&str>) {
     let mut r = Rng::new(ctx.seed).fork(3);
 
     // ---- C03: rendered programs, written == parsed ----
-    let n_prog = ctx.n(6_000, 120_000);
+    let n_prog = ctx.n(6_000, 400_000);
     for k in 0..n_prog {
         let cfg = GenCfg { ascii_labels: r.chance(1, 2), alphabet_strings: r.chance(1, 2) };
         let m = if r.chance(1, 10) { 25 } else { 6 };
@@ -565,7 +565,7 @@ pub fn run(ctx: &Ctx, replay: Option<&str>) {
     }
 
     // ---- C03: metamorphic pairs through the real assembler ----
-    let n_meta = ctx.n(1_500, 30_000);
+    let n_meta = ctx.n(1_500, 80_000);
     let mut asm_ok = 0;
     for _ in 0..n_meta {
         let prog = gen_assemblable(&mut r);
@@ -585,7 +585,7 @@ pub fn run(ctx: &Ctx, replay: Option<&str>) {
 
     // ---- C04: malformed stream ----
     let cfg = GenCfg { ascii_labels: false, alphabet_strings: false };
-    let n_rand = ctx.n(12_000, 400_000);
+    let n_rand = ctx.n(12_000, 1_500_000);
     for _ in 0..n_rand {
         let s = match r.below(4) {
             0 => rand_text(&mut r, 12),
@@ -596,7 +596,7 @@ pub fn run(ctx: &Ctx, replay: Option<&str>) {
         let t = check_c04(ctx, &s, "random");
         ctx.case("parse.ast", &text_tree(&s), &t);
     }
-    let n_mut = ctx.n(8_000, 250_000);
+    let n_mut = ctx.n(8_000, 800_000);
     for _ in 0..n_mut {
         let prog = gen_program(&mut r, &cfg, 4);
         let st = Style::any(&mut r);
@@ -616,7 +616,7 @@ pub fn run(ctx: &Ctx, replay: Option<&str>) {
         ctx.case("parse.ast", &text_tree(&s), &t);
     }
     // a few token streams of rendered programs (comments and spans included)
-    for _ in 0..ctx.n(500, 10_000) {
+    for _ in 0..ctx.n(500, 40_000) {
         let prog = gen_program(&mut r, &cfg, 3);
         let st = Style::any(&mut r);
         let (text, _) = render(&mut r, &prog, &st);
